@@ -1000,7 +1000,7 @@ def main():
                 lens[len(slots)] = lens.get(len(slots), 0) + 1
     c.cov["chain_length_histogram_over_observed_buckets"] = {str(k_): v for k_, v in sorted(lens.items())}
     c.cov["pool"] = {"collision_families": [[i.decode() for i in f[:5]] for f in fams], "colliding_with_the_empty_id": [i.decode() for i in with_empty],
-                     "prefix_chains (colliding ids, each a proper prefix of the next)": [[i.decode() for i in t] for t in prefix_chains], "prefix_scenarios": n_prefix,
+                     "prefix_chains (colliding ids, each a proper prefix of the next)": [[i.decode() for i in t] for t in prefix_chains], "prefix_scenarios": n_prefix, "leftover_scenarios": n_left,
                      "battery_size": len(battery), "buckets_watched": len(buckets), "ids_tried_for_collisions": tries}
     c.sample({"history": shown[n_fixed][:1500], "result_prefix": " ".join(io[n_fixed].split()[:60])})
     c.sample({"history": shown[0][:1200]})
@@ -1010,6 +1010,11 @@ def main():
                                  "%d prefix scenarios over %d chains of colliding ids in which each id is a proper prefix of the next (one extra character; two or three extra characters; triples; "
                                  "the empty id with ids of its own bucket): every order of arrival through SetUserID and through a cold load, every id looked up in 4 letter cases with one character less / more / "
                                  "different while only the others are present, while all are, after each removal; DoSearchUserRaw of the empty id (free-slot search)" % (n_prefix, len(prefix_chains)),
+                                 "%d leftover scenarios: ids in buffers that held a longer id before (12 / 11 characters, bytes >= 0x80, the tail of the colliding longer id of a prefix pair) as "
+                                 "arguments of SetUserID / AddToUHash, as .PASSWDS records on a cold load, on a reload from records with OTHER leftovers and on a cold load by a second process, and as queries; "
+                                 "each id looked up clean and dirty in several letter cases; DoSearchUserRaw of the empty id in a dirty buffer" % n_left,
+                                 "docker build (MAX_USERS %d): %d scenarios - 5000 records with users behind more than %d free records; %d / %d / %d free records ahead of the first user; 70000 records with users "
+                                 "at slots 65535..65537 and operations on the last two slots of the table" % (maxu_d, n_dfixed, PREALLOC, PREALLOC - 1, PREALLOC, PREALLOC + 1),
                                  "load matrix, %d scenarios: {cold load of a zeroed (just created / Shm.Reset) segment, of a segment reset after a previous life, of an unloaded segment with the old chains "
                                  "left behind; reload of a loaded segment; reload of a loaded-then-modified segment} x {executed by the creator, by a second process attached with NewSHM(isCreate=false), "
                                  "by a second process started with NewSHM(isCreate=true)} x {empty, short, full, colliding .PASSWDS}, each followed by lookups from a third process, set / remove / add by both "
@@ -1022,8 +1027,13 @@ def main():
                   "and is killed when it does not answer within 2.5 s (status 2 = does not terminate; the first two such verdicts are re-run with 12 s); ids from a pool of 16-bit collision families (one with the empty id's bucket), colliding prefix chains (an id, the id plus one character, plus two or three, "
                   "the empty id and ids of its bucket), case twins, a 12-byte id, junk after the NUL, full 50-id tables; after every step the chains of all watched buckets, the count of non-empty heads, all stored ids and a battery of lookups (scenarios: every id they use in 4 letter cases plus near misses; generated histories: a random 96 of the pool's %d) "
                   "are compared with the extracted model and judged against the check's reference dict; a step is distinct by (operation, arguments, "
-                  "reference state after it)" % len(battery),
+                  "reference state after it). Half of the generated histories draw 30 or 60 percent of their ids (set / add arguments, .PASSWDS records, queries) in buffers with leftovers of a longer id behind the NUL. "
+                  "The same on a second driver built with -tags docker (MAX_USERS 2 000 000): sparse .PASSWDS files of 1 000 to 70 000 records in which more than PRE_ALLOCATED_USERS free records precede live users, "
+                  "watched slots instead of the whole table, compared with the extracted model instantiated at the docker constants and judged by the same reference (a record with a valid id is always stored and indexed; "
+                  "free records only while at most PRE_ALLOCATED_USERS have been seen)" % len(battery),
              assumptions=["types.Cstrcmp/Cstrcasecmp == 0 are re-specified as equality of the (case-folded) NUL-terminated prefixes (C18 is about those functions)",
+                          "docker build: files of at most 70 000 records are loaded (a full 2 000 000-record .PASSWDS is 1 GB); the last slots of the table are reached through SetUserID / AddToUHash; the zeroed / reset segment "
+                          "(2 000 000-step self-loops) is exercised on the default build only; a record with a non-empty invalid id behind more than PRE_ALLOCATED_USERS free records is outside the premises",
                           "one writer at a time (concurrent registrations are C15): the second process runs its operation while the first one waits, so two LoadUHash calls racing each other are not driven",
                           "an operation of a second process that has not returned after 2.5 s (12 s on the re-run; LoadUHash over 2^16 buckets and 50 records takes milliseconds) never returns", "SysV shmget/shmat give every attached process the same bytes",
                           "killUser does not release the slot in the index (C03's finding, row 19 of DESIGN section 6); this check drives cache.* only"])
